@@ -600,6 +600,8 @@ impl Subscription {
                             partition_iters.remove(&partition_id);
                             continue;
                         };
+                        #[cfg(sierradb_verif)]
+                        crate::verif::point("sub.history.batch", &[]);
 
                         for commit in commits {
                             let Some(first_partition_sequence) = commit.first_partition_sequence()
